@@ -153,6 +153,29 @@ def gen_C01(tier, rng):
                     reg = c.r("conv %s %d" % (tgt, reg)); c.q("obs %d" % reg)
             dist["wide_%s" % nm] += 1
             cases.append(c.done("%s%d" % (nm, nv), True))
+    # asymmetric functions of many variables (sparse random DNF / CNF, 8-10 (12) variables): the position of every
+    # variable in the row index matters, also beyond one machine word of rows
+    wide_names = ["x%d" % i for i in range(1, 13)]
+    for nv in ([8, 9, 10] if tier == "quick" else [8, 9, 10, 11, 12]):
+        for rep in range(3 if tier == "quick" else 8):
+            vs = wide_names[:nv]
+            clauses = []
+            for _ in range(rng.randint(2, 5)):
+                lits_ = rng.sample(vs, rng.randint(1, 4))
+                clauses.append([gen.L(x) if rng.random() < 0.6 else gen.Nn(gen.L(x)) for x in lits_])
+            used = {l_[1] if l_[0] == "L" else l_[1][1] for cl in clauses for l_ in cl}
+            # every variable is mentioned, the unused ones in a clause that is absorbed: (v | !v) keeps them declared
+            pad = [gen.O([gen.L(x), gen.Nn(gen.L(x))]) for x in vs if x not in used]
+            e = gen.O([gen.A(cl) for cl in clauses]) if rep % 2 == 0 else gen.A([gen.O(cl) for cl in clauses])
+            if pad: e = gen.A([e] + pad)
+            c = Case("c01_%d" % n); n += 1
+            r0 = c.r("expr " + pe(e)); c.q("obs %d" % r0)
+            for path in ("T", "TE", "TET", "BT", "BTE"):
+                reg = r0
+                for tgt in path:
+                    reg = c.r("conv %s %d" % (tgt, reg)); c.q("obs %d" % reg)
+            dist["wide_sparse_%d" % nv] += 1
+            cases.append(c.done("sparse%d/%d" % (nv, rep), True))
     for _ in range(120 if tier == "quick" else 1200):
         names = gen.NAMES[: rng.randint(2, 7)]
         e = gen.rand_tree(rng, rng.randint(2, 6), names)
@@ -165,7 +188,7 @@ def gen_C01(tier, rng):
         dist["random_chain"] += 1
         cases.append(c.done(pe(e), True))
     return {"cases": cases, "exhaustive": True, "dist": dict(dist),
-            "rule": "every truth function of <= 3 variables as an expression (DNF/CNF/Shannon shapes; quick: one shape per 3-variable function) pushed through EVERY conversion path of length <= %d (2+4+..+2^k paths), full observation after each step; parity / majority / xor-rich functions of 5-7 (9) variables through the diagram paths (large diagrams and normal forms); random trees through random chains of 3-10 conversions; non-trivial = non-constant function; distinct = (function, shape)" % depth}
+            "rule": "every truth function of <= 3 variables as an expression (DNF/CNF/Shannon shapes; quick: one shape per 3-variable function) pushed through EVERY conversion path of length <= %d (2+4+..+2^k paths), full observation after each step; parity / majority / xor-rich functions of 5-7 (9) variables through the diagram paths (large diagrams and normal forms); sparse asymmetric DNF/CNF of 8-10 (12) variables through the table paths; random trees through random chains of 3-10 conversions; non-trivial = non-constant function; distinct = (function, shape)" % depth}
 
 
 # ------------------------------------------------------------------ C03 / C04
@@ -1048,6 +1071,31 @@ def gen_C20(tier, rng):
             if rng.random() < 0.3: c.q("nf %d" % rng.randint(0, r0))
         dist["history_streams"] += 1
         cases.append(c.done("hist%d" % n, True))
+    # aliasing: the same object as both operands, and objects that came back from operations with nothing to do
+    # (a foreign variable), combined with their origin. The second execution of every line (--twice) runs on
+    # node-by-node rebuilt copies, so a result that depends on the *identity* of its arguments shows as det=0
+    for n in range(40 if tier == "quick" else 400):
+        c = Case("c20_a%d" % n)
+        for kind_ in "ETB":
+            e = gen.rand_tree(rng, rng.randint(1, 3), ["a", "b", "c"], max_arity=3, consts=rng.random() < 0.2, empties=False)
+            r0 = c.r("expr " + pe(e))
+            if kind_ != "E": r0 = c.r("conv %s %d" % (kind_, r0))
+            same = [r0, c.r("restrict %d %s" % (r0, val_tokens({"zz": True}))), c.r("exists %d %s" % (r0, set_tokens(["zz"]))),
+                    c.r("forall %d %s" % (r0, set_tokens(["zz"]))), c.r("restrict %d %s" % (r0, val_tokens({})))]
+            lit = c.r("expr " + pe(gen.L("q")))
+            if kind_ != "E": lit = c.r("conv %s %d" % (kind_, lit))
+            same.append(c.r("subst %d 1 %s %d" % (r0, hexname("zz"), lit)))
+            for x in same:
+                for o in ("and", "or", "xor", "imply", "iff"):
+                    form = rng.choice(["val", "ref", "assign", "mixed"]) if o in ("and", "or", "xor") else "val"
+                    k = c.r("op2 %s %s %d %d" % (o, form, r0, x)); c.q("obs %d" % k)
+                    if kind_ == "E": c.q("show %d" % k)
+                if kind_ == "E":
+                    k = c.r("binary %s %d %d" % (rng.choice(["and", "or"]), r0, x)); c.q("show %d" % k)
+                    k = c.r("nary %s 3 %d %d %d" % (rng.choice(["and", "or"]), x, r0, x)); c.q("show %d" % k)
+                c.q("equiv %d %d" % (r0, x))
+        dist["aliasing"] += 1
+        cases.append(c.done("alias%d" % n, True))
     # parser history: a keyword-like identifier followed by the keyword itself (and back), in one process
     suffixes = ["y", "_", "1", "hood", "-x", "B"]
     seqs = []
@@ -1063,7 +1111,7 @@ def gen_C20(tier, rng):
         dist["parser_history"] += 1
         cases.append(c.done(c.id, True))
     return {"cases": cases, "exhaustive": False, "dist": dict(dist),
-            "rule": "random programs as for C15; every instruction and every observation (structure, Debug form, enumerations incl. support order and sat point, CSV / rendered / printed text) is computed twice within one process and again in further separate processes with fresh hash seeds; all must be identical, and the operand registers are observed again after all later instructions, in shuffled order; plus parser histories (an identifier that starts with a keyword, then the keyword itself, for every keyword spelling), plus streams of 40 short-lived expressions whose normal forms are computed and dropped at once (hidden caches keyed by addresses or earlier calls), plus a source scan for interior mutability; non-trivial = all; distinct = program"}
+            "rule": "random programs as for C15; every instruction and every observation (structure, Debug form, enumerations incl. support order and sat point, CSV / rendered / printed text) is computed twice within one process and again in further separate processes with fresh hash seeds; all must be identical, and the operand registers are observed again after all later instructions, in shuffled order; the second execution runs on node-by-node rebuilt copies of all registers (equal arguments, different objects), with aliasing programs (the same register as both operands; results of operations that had nothing to do combined with their origin); plus parser histories (an identifier that starts with a keyword, then the keyword itself, for every keyword spelling), plus streams of 40 short-lived expressions whose normal forms are computed and dropped at once (hidden caches keyed by addresses or earlier calls), plus a source scan for interior mutability; non-trivial = all; distinct = program"}
 
 
 GENERATORS.update({"C20": gen_C20})
